@@ -67,7 +67,7 @@ def oracle_fdiv(case):
 @st.composite
 def mmd_case(draw):
     return {"ovo": draw(st.booleans()), "p": draw(gens.p_spec(pkinds=gens.STRUCTURED_P)), "x": draw(gens.x_spec(kinds=gens.LOWLEVEL_KINDS)),
-            "a": draw(gens.kernel_spec(forms=("named", "callable", "precomputed", "psd", "indef", "foreign", "sk_callable")))}
+            "a": draw(gens.kernel_spec(forms=("named", "callable", "precomputed", "psd", "indef", "foreign", "sk_callable", "sparse")))}
 
 
 def check_affinity(A, Aref, label):
